@@ -159,7 +159,7 @@ def run_tlc(module, cfg=None, env=None, workers=1, timeout=3600, simulate=None, 
             r.results.append(json.loads(m.group(1).replace('\\"', '"').replace("\\\\", "\\")))
         except Exception as ex:
             raise ToolError("cannot parse RESULT line: %s (%s)" % (m.group(1)[:200], ex))
-    for m in re.finditer(r"^<<\"VEC\", \"(.*)\">>$", out, re.M):
+    for m in re.finditer(r'<<\s*"VEC",\s*"(.*?)"\s*>>', out, re.S):
         r.vecs.append(m.group(1).replace('\\"', '"').replace("\\\\", "\\"))
     m = re.search(r"(\d+) states generated, (\d+) distinct states found", out)
     if m:
